@@ -51,11 +51,15 @@ def validity_error(array, exception=False):
     elif isinstance(array, ak.highlevel.ArrayBuilder):
         return validity_error(array.snapshot().layout, exception=exception)
 
+    elif isinstance(array, ak.layout.Record):
+        return validity_error(
+            array.array[array.at : array.at + 1], exception=exception
+        )
+
     elif isinstance(
         array,
         (
             ak.layout.Content,
-            ak.layout.Record,
             ak.partition.PartitionedArray,
         ),
     ):
